@@ -1421,33 +1421,74 @@ def case_ib_seq(c: dict):
         if not isinstance(res, BaseException) and len(srcs) == 1:
             src = srcs.pop()
             reads = ScriptedLineTransport(state).all_reads()
-            first = next((g for g in (ref_ib_decode(fr) for fr in reads if fr is not None)
-                          if g is not None and 0 <= g[2] <= 9 and g[1] == dest and g[0] == src), None)
+            first, used = None, 0
+            for fr in reads:
+                if fr is None:
+                    continue
+                used += len(fr)
+                g = ref_ib_decode(fr)
+                if g is not None and 0 <= g[2] <= 9 and g[1] == dest and g[0] == src:
+                    first = g
+                    break
             if _msg_tuple(line) != first:
                 fails.append(("wrong-reply-returned", "sequence", f"call {len(lines)} of {c['ops']} on one protocol object: first intact "
                               f"telegram for (dest={dest}, src={src}) is {first}; QMI returned {line}"))
+            elif first is not None:
+                # stray-byte accounting: exactly the telegrams up to the returned one are gone, nothing of the following ones
+                flat = b"".join(x for x in state if x is not None)
+                left = bytes(tr.buf) + b"".join(x for x in tr.script if x is not None)
+                if left != flat[used:]:
+                    fails.append(("session-misframed", "sequence", f"call {len(lines)} of {c['ops']}: the returned telegram ends at stream "
+                                  f"offset {used}; {len(flat) - len(left)} bytes are gone — the next exchange starts in the middle of a telegram"))
         if proto._source_toggle == tg0 and not isinstance(res, ValueError):
             fails.append(("source-not-alternated", "sequence", f"two consecutive requests used the same source address (toggle {tg0})"))
     return lines, outs, fails
 
 
 def case_apt_seq(c: dict):
-    """Several `ask` calls through ONE AptProtocol over ONE receive stream."""
+    """A session: several `ask` calls through ONE AptProtocol over ONE receive stream.
+
+    `asks` = [(class asked for, wire bytes of the device's next message or None, expectation)], expectation =
+    `data:<hex>` (this ask must return exactly these bytes), `reject` (a data message with another id: must raise) or
+    None (no demand).  Framing: every ask that meets a complete *data* message must consume header + announced length,
+    whether it returns or raises, so that the following asks still receive exactly what the device sent; at the end the
+    unread rest of the stream must be exactly the device's unread messages."""
     ap, pk = _apt_mods()
-    tr = BufferTransport(bytes.fromhex(c["buf"]), budget=200)
+    stream = bytes.fromhex(c["buf"])
+    tr = BufferTransport(stream, budget=400)
     proto = ap.AptProtocol(tr, apt_device_address=c["dev"], host_address=c["host"], default_timeout=0.01)
     lines, outs, fails = [], [], []
-    for name, want_hex in c["asks"]:
+    pos, framed = 0, True        # reference position in the stream; False once the reference itself cannot tell
+    for step, (name, wire_hex, expect) in enumerate(c["asks"]):
         lines.append(f"apt.ask {c['dev']} {c['host']} {name} {hx(bytes(tr.buf))}")
+        wire = None if wire_hex is None else bytes.fromhex(wire_hex)
         try:
             obj = proto.ask(getattr(pk, name))
+            res = bytes(obj)
             outs.append(f"ok {ints_str(apt_obj_values(obj))}|buf={hx(bytes(tr.buf))}")
-            if want_hex is not None and bytes(obj).hex() != want_hex:
-                fails.append(("ask-roundtrip", f"{name}:sequence", f"message #{len(lines)} of one stream: device sent {want_hex}; ask returned {bytes(obj).hex()}"))
         except Exception as e:  # noqa
+            res = e
             outs.append(_exc(e) + f"|buf={hx(bytes(tr.buf))}")
-            if want_hex is not None:
-                fails.append(("ask-roundtrip", f"{name}:sequence", f"message #{len(lines)} of one stream ({want_hex}): ask raised {_exc(e)}"))
+        if fails:
+            continue
+        what = f"ask #{step + 1} ({name}) of the session {[(a, w) for a, w, _ in c['asks']]} on one AptProtocol"
+        if expect is not None and expect.startswith("data:"):
+            if isinstance(res, BaseException):
+                fails.append(("session-reply-lost", f"{name}:after-{c.get('cls', 'session')}",
+                              f"{what}: the device sent {wire.hex()}; ask raised {_exc(res)}"))
+            elif res.hex() != expect[5:]:
+                fails.append(("session-wrong-data", f"{name}:after-{c.get('cls', 'session')}",
+                              f"{what}: the device sent {wire.hex()} (data {expect[5:]}); ask returned {res.hex()}"))
+        elif expect == "reject" and not isinstance(res, BaseException):
+            fails.append(("ask-wrong-id", f"{name}:session", f"{what}: the device sent {wire.hex()} (another id); ask returned {res.hex()}"))
+        if wire is not None and framed and c.get("framing", True):
+            pos += len(wire)
+            if not fails and bytes(tr.buf) != stream[pos:]:
+                fails.append(("session-misframed", f"{name}:{c.get('cls', 'session')}",
+                              f"{what}: the device's message {wire.hex()} ends at offset {pos}; afterwards {len(stream) - len(tr.buf)} bytes "
+                              f"had been consumed — the following replies are cut at the wrong place"))
+        else:
+            framed = False
     return lines, outs, fails
 
 
@@ -1554,6 +1595,58 @@ def case_k10_wait(c: dict):
     return [line], [o], fails
 
 
+def case_k10_seq(c: dict):
+    """Several calls on ONE Thorlabs_K10CR1 over ONE transport; one device message (or junk) arrives before each call."""
+    tr = BufferTransport(b"", budget=600)
+    k, obj = _k10(tr)
+    real_time = k.time
+    k.time = _FakeTime(0, 0)
+    lines, outs, fails = [], [], []
+    tmos: list = []
+    orig = obj._read_message
+
+    def rec(timeout):
+        tmos.append(timeout)
+        return orig(timeout=timeout)
+    try:
+        for step, st in enumerate(c["steps"]):
+            obj._read_message = rec if st["op"] == "wait" else orig
+            del tmos[:]
+            left_before = bytes(tr.buf)
+            tr.buf += bytes.fromhex(st["feed"])
+            buf0 = bytes(tr.buf)
+            try:
+                if st["op"] == "wait":
+                    lines.append(f"k10.wait {st['want']} 0 0 5 {hx(buf0)}")
+                    m = obj._wait_message(k10_classes()[st["want"]], 5.0)
+                else:
+                    lines.append(f"k10.read {hx(buf0)}")
+                    m = obj._read_message(timeout=1.0)
+                res = m
+                line = f"ok {type(m).__name__} {ints_str(apt_obj_values(m))}|buf={hx(bytes(tr.buf))}"
+            except Exception as e:  # noqa
+                res, line = e, _exc(e) + f"|buf={hx(bytes(tr.buf))}"
+            if st["op"] == "wait":
+                line += "|tmo=" + (",".join(str(int(x)) for x in tmos) or ".")
+            outs.append(line)
+            if fails:
+                continue
+            what = f"call #{step + 1} of the session {[(x['op'], x['feed']) for x in c['steps']]} on one K10CR1"
+            exp = st.get("expect")
+            if exp is not None and exp.startswith("msg:") and not left_before:
+                if isinstance(res, BaseException):
+                    fails.append(("k10-session-reply-lost", st["op"], f"{what}: the device sent {exp[4:]}; the driver raised {_exc(res)}"))
+                elif bytes(res).hex() != exp[4:]:
+                    fails.append(("k10-session-wrong-data", st["op"], f"{what}: the device sent {exp[4:]}; the driver got {bytes(res).hex()}"))
+                elif tr.buf:
+                    fails.append(("k10-session-misframed", st["op"], f"{what}: {bytes(tr.buf).hex()} left in the input after the message was read"))
+            elif exp == "reject" and not isinstance(res, BaseException) and not left_before:
+                fails.append(("k10-malformed-accepted", "session", f"{what}: malformed input ({st.get('why')}); the driver returned {bytes(res).hex()}"))
+    finally:
+        k.time = real_time
+    return lines, outs, fails
+
+
 def case_k10_send(c: dict):
     msg, buf = bytes.fromhex(c["msg"]), bytes.fromhex(c["buf"])
     line = f"k10.send {hx(msg)} {hx(buf)}"
@@ -1650,7 +1743,7 @@ def case_t3(c: dict):
 CASE_FUNCS = {"ib_codec": case_ib_codec, "ib_wire": case_ib_wire, "ib_rr": case_ib_rr,
               "apt_wp": case_apt_wp, "apt_wd": case_apt_wd, "apt_ask": case_apt_ask, "apt_askt": case_apt_askt,
               "k10_read": case_k10_read, "k10_wait": case_k10_wait, "k10_send": case_k10_send, "k10_create": case_k10_create,
-              "t2": case_t2, "t3": case_t3, "ib_seq": case_ib_seq, "apt_seq": case_apt_seq}
+              "t2": case_t2, "t3": case_t3, "ib_seq": case_ib_seq, "apt_seq": case_apt_seq, "k10_seq": case_k10_seq}
 
 
 def run_case(c: dict):
@@ -1695,6 +1788,25 @@ def shrink_case(c: dict, clause: str) -> dict:
             if _still_fails(cand, clause):
                 sc = sc[:i] + sc[i + 1:]
                 c = cand
+            else:
+                i += 1
+    if c["kind"] == "apt_seq":
+        asks = list(c["asks"])
+        i = 0
+        while i < len(asks) and len(asks) > 1:
+            cand_asks = asks[:i] + asks[i + 1:]
+            cand = {**c, "asks": cand_asks, "buf": "".join(w for _, w, _ in cand_asks if w)}
+            if _still_fails(cand, clause):
+                asks, c = cand_asks, cand
+            else:
+                i += 1
+    if c["kind"] == "k10_seq":
+        steps = list(c["steps"])
+        i = 0
+        while i < len(steps) and len(steps) > 1:
+            cand = {**c, "steps": steps[:i] + steps[i + 1:]}
+            if _still_fails(cand, clause):
+                steps, c = cand["steps"], cand
             else:
                 i += 1
     if c["kind"] == "t2":
@@ -1916,29 +2028,71 @@ def gen_ib_seq(rng) -> dict:
     return {"kind": "ib_seq", "tg": tg, "ops": ops, "script": [None if x is None else x.hex() for x in script]}
 
 
+def _apt_device_message(rng, packets: dict, name: str, host: int) -> tuple:
+    """(wire bytes, data bytes the driver should see) of a well-formed device→host message of class `name` (document format)."""
+    cls, doc = packets[name], APT_DOC[name]
+    dv = gen_doc_values(rng, doc[1])
+    if cls.HEADER_ONLY:
+        dv[0] = int(cls.MESSAGE_ID)
+        raw = doc_pack(doc[1], dv)
+        return raw, raw
+    data = doc_pack(doc[1], dv)
+    return ref_apt_header_data(int(cls.MESSAGE_ID), len(data), host & 0x7F, 0x50) + data, data
+
+
 def gen_apt_seq(rng, packets: dict) -> dict:
+    """Session over one stream: expected replies, and — in front of them — data messages nobody asked for (other id,
+    same or other length; the 14-byte unsolicited status update), each met by an ask for another data packet."""
     import ctypes
     dev, host = _addr(rng)
-    buf, asks = b"", []
-    for _ in range(rng.randint(2, 5)):
-        name = rng.choice(sorted(n for n in packets if n in APT_DOC))
-        cls = packets[name]
-        doc = APT_DOC[name]
-        dv = gen_doc_values(rng, doc[1])
-        if cls.HEADER_ONLY:
-            dv[0] = int(cls.MESSAGE_ID)
-            raw = doc_pack(doc[1], dv)
-            buf += raw
-            asks.append((name, raw.hex()))
+    known = sorted(n for n in packets if n in APT_DOC and (packets[n].HEADER_ONLY or struct.calcsize(APT_DOC[n][1]) == ctypes.sizeof(packets[n])))
+    data_names = [n for n in known if not packets[n].HEADER_ONLY]
+    buf, asks, tags = b"", [], set()
+    for _ in range(rng.randint(2, 6)):
+        name = rng.choice(known)
+        r = rng.random()
+        if not packets[name].HEADER_ONLY and r < 0.45:
+            # the device volunteers another data message first; the ask for `name` meets it and must raise — and consume it whole
+            other = rng.choice([n for n in data_names if packets[n].MESSAGE_ID != packets[name].MESSAGE_ID] or data_names)
+            if rng.random() < 0.4 and "MOT_GET_USTATUSUPDATE" in data_names and name != "MOT_GET_USTATUSUPDATE":
+                other = "MOT_GET_USTATUSUPDATE"
+            wire, _ = _apt_device_message(rng, packets, other, host)
+            if packets[other].MESSAGE_ID != packets[name].MESSAGE_ID:
+                buf += wire
+                asks.append((name, wire.hex(), "reject"))
+                tags.add("rejected-same-length" if ctypes.sizeof(packets[other]) == ctypes.sizeof(packets[name]) else "rejected-other-length")
+        wire, data = _apt_device_message(rng, packets, name, host)
+        buf += wire
+        asks.append((name, wire.hex(), "data:" + data.hex()))
+    if rng.random() < 0.3:    # ask once more than there are messages
+        asks.append((asks[-1][0], None, None))
+    if rng.random() < 0.2:    # stray bytes behind the last message stay where they are
+        buf += bytes(rng.randrange(256) for _ in range(rng.randint(1, 5)))
+    return {"kind": "apt_seq", "dev": dev, "host": host, "buf": buf.hex(), "asks": asks, "cls": "+".join(sorted(tags)) or "replies-only"}
+
+
+def gen_k10_seq(rng) -> dict:
+    """Session on one Thorlabs_K10CR1: the device's messages arrive one per step (`feed`), then `_read_message` or
+    `_wait_message(cls)` is called.  Malformed messages make the driver discard its input; the NEXT message must be read intact."""
+    steps = []
+    for _ in range(rng.randint(2, 6)):
+        r = rng.random()
+        if r < 0.3:
+            wire, why = _k10_bad_message(rng)
+            steps.append({"feed": wire.hex(), "op": "read", "expect": None if why in ("partial", "short-stream", "long-flag-zero-length") else "reject",
+                          "why": why})
         else:
-            data = doc_pack(doc[1], dv)
-            if struct.calcsize(doc[1]) != ctypes.sizeof(cls):
-                continue
-            buf += ref_apt_header_data(int(cls.MESSAGE_ID), len(data), host & 0x7F, 0x50) + data
-            asks.append((name, data.hex()))
-    if rng.random() < 0.3 and asks:    # ask once more than there are messages
-        asks.append((asks[-1][0], None))
-    return {"kind": "apt_seq", "dev": dev, "host": host, "buf": buf.hex(), "asks": asks}
+            mid = rng.choice(sorted(K10_DOC))
+            wire, _ = ref_k10_message(rng, mid)
+            if rng.random() < 0.35:
+                want = next(n for n, cl in sorted(k10_classes().items()) if int(cl.MESSAGE_ID) == mid)
+                pre = ref_k10_message(rng, rng.choice(sorted(K10_DOC)))[0] if rng.random() < 0.5 else b""
+                if pre and struct.unpack_from("<H", pre)[0] == mid:
+                    pre = b""
+                steps.append({"feed": (pre + wire).hex(), "op": "wait", "want": want, "expect": "msg:" + wire.hex()})
+            else:
+                steps.append({"feed": wire.hex(), "op": "read", "expect": "msg:" + wire.hex()})
+    return {"kind": "k10_seq", "steps": steps}
 
 
 def fixed_corpus() -> list:
@@ -2376,8 +2530,11 @@ class C15B(Prop):
             res.count("apt." + k + ".result." + outs[0].split("|")[0].split(" ")[0])
             if k == "k10_read":
                 res.count("apt.k10_read." + str(c.get("cls")))
-        elif k in ("ib_seq", "apt_seq"):
+        elif k in ("ib_seq", "apt_seq", "k10_seq"):
             res.count("sequence_on_one_object." + k)
+            if k == "apt_seq":
+                for tag in c.get("cls", "").split("+"):
+                    res.count("apt.session." + tag)
         elif k == "t3":
             res.count("t2.t3_batches", len(c["batches"]))
         elif k == "t2":
@@ -2394,7 +2551,8 @@ class C15B(Prop):
         packets = live_packets()
         cases: list = fixed_corpus()
         cases += [gen_ib_seq(rng) for _ in range(ctx.scale(1000, 15000))]
-        cases += [gen_apt_seq(rng, packets) for _ in range(ctx.scale(1000, 15000))]
+        cases += [gen_apt_seq(rng, packets) for _ in range(ctx.scale(2000, 30000))]
+        cases += [gen_k10_seq(rng) for _ in range(ctx.scale(1000, 15000))]
         # boundary lengths, every reserved byte at every position of a short payload
         for n in (0, 1, 2, 239, 240, 241):
             for fill in (0x00, 0x0A, 0x0D, 0x5E, 0x4A):
@@ -2472,6 +2630,9 @@ class C15B(Prop):
         cases += [gen_apt_wp(ctx.rng) for _ in range(1500)]
         cases += [gen_apt_wd(ctx.rng, packets) for _ in range(3000)]
         cases += [gen_apt_ask(ctx.rng, packets) for _ in range(6000)]
+        cases += [gen_apt_seq(ctx.rng, packets) for _ in range(4000)] + [gen_k10_seq(ctx.rng) for _ in range(2000)]
+        cases += [gen_ib_seq(ctx.rng) for _ in range(3000)] + [gen_k10_read(ctx.rng) for _ in range(3000)] + \
+                 [gen_k10_wait(ctx.rng) for _ in range(3000)]
         recs = [t2_rec("photon", 1, 5), t2_rec("photon", 63, T2_WRAP - 1), t2_rec("sync", 0, 0), t2_rec("marker", 15, 9),
                 t2_rec("overflow", 0x3F, 1), t2_rec("overflow", 0x3F, 3)]
         for n in range(0, 5):
